@@ -8,6 +8,11 @@ use std::sync::atomic::{AtomicUsize, Ordering};
 use std::sync::Mutex;
 use std::time::Instant;
 
+/// root of the repository checkout under check (MC_REPO, default /repo)
+pub fn repo_root() -> String {
+    std::env::var("MC_REPO").unwrap_or_else(|_| "/repo".to_string())
+}
+
 pub fn verif_root() -> PathBuf {
     std::env::var("VERIF_ROOT").map(PathBuf::from).unwrap_or_else(|_| PathBuf::from("/verif"))
 }
